@@ -74,6 +74,31 @@ def subst(expr, env):
     return holder.body
 
 
+def _const_truth(e):
+    """Truth value of an expression that is constant after substitution (None if it is not)."""
+    if isinstance(e, ast.Constant):
+        return bool(e.value)
+    if isinstance(e, ast.UnaryOp) and isinstance(e.op, ast.Not):
+        v = _const_truth(e.operand)
+        return None if v is None else not v
+    if isinstance(e, ast.BoolOp):
+        vals = [_const_truth(v) for v in e.values]
+        if isinstance(e.op, ast.And):
+            if any(v is False for v in vals):
+                return False
+            return True if all(v is True for v in vals) else None
+        if any(v is True for v in vals):
+            return True
+        return False if all(v is False for v in vals) else None
+    if isinstance(e, ast.Compare) and len(e.ops) == 1 and isinstance(e.left, ast.Constant) and isinstance(e.comparators[0], ast.Constant):
+        a, b = e.left.value, e.comparators[0].value
+        try:
+            return {ast.Eq: a == b, ast.NotEq: a != b, ast.Is: a is b, ast.IsNot: a is not b}.get(type(e.ops[0]))
+        except Exception:
+            return None
+    return None
+
+
 class PathSummary:
     __slots__ = ("atoms", "effects", "path", "env")
 
@@ -100,9 +125,18 @@ class PathSummary:
         return (text, pol) in self.atoms
 
 
+_VALUE_ONLY = [False]
+
+
 def _assign(env, effects, target, value, node):
     """Bind `target = value` (value already substituted)."""
     if isinstance(target, ast.Name):
+        if _VALUE_ONLY[0]:
+            from .derefactor import _value_like
+
+            if not _value_like(value):
+                env.pop(target.id, None)  # a fresh object: the name stands for itself
+                return
         env[target.id] = value
     elif isinstance(target, (ast.Tuple, ast.List)):
         if isinstance(value, (ast.Tuple, ast.List)) and len(value.elts) == len(target.elts):
@@ -128,9 +162,12 @@ def summarise_path(cfg, path, start_env=None):
         if kind == "test" and b is not None:
             labs = cfg.g[a][b]["label"].split("|")
             t = subst(node, env)
-            # calls inside a test are effects too (e.g. `if self._score_lower(a, b)`), recorded once
             if "true" in labs and "false" in labs:
                 continue
+            ct = _const_truth(t)
+            if ct is not None and (("true" in labs and not ct) or ("false" in labs and ct)):
+                ats.add(("<infeasible: `%s` is %s here>" % (u(node), ct), True))
+                ats.add(("<infeasible: `%s` is %s here>" % (u(node), ct), False))
             if "true" in labs:
                 ats |= atoms(t, True)
             elif "false" in labs:
@@ -153,6 +190,8 @@ def summarise_path(cfg, path, start_env=None):
         s = node
         if isinstance(s, ast.Assign):
             v = subst(s.value, env)
+            if isinstance(v, ast.Call):
+                effects.append(("call", v, None, s))
             # simultaneous assignment: all targets are substituted with the OLD environment
             tgts = [subst_target(t, env) for t in s.targets]
             for t in tgts:
@@ -221,14 +260,43 @@ def paths(cfg, src=None, dst=None, avoid=()):
             yield p
 
 
-def summaries(cfg, src=None, dst=None, start_env=None, feasible_only=True, include_raise=False):
-    """PathSummary for every acyclic path (loops entered at most once)."""
+def summaries(cfg, src=None, dst=None, start_env=None, feasible_only=True, include_raise=False, value_only=False):
+    """PathSummary for every acyclic path (loops entered at most once).
+    value_only: only value-like definitions (names, attributes, subscripts, arithmetic, pure builtins) are substituted;
+    a local bound to a fresh object (constructor call, display, comprehension) keeps standing for itself."""
     out = []
     for p in paths(cfg, src, dst):
         if not include_raise and dst is None and p[-1] == cfg.raise_exit:
             continue
-        s = summarise_path(cfg, p, start_env)
+        _VALUE_ONLY[0] = bool(value_only)
+        try:
+            s = summarise_path(cfg, p, start_env)
+        finally:
+            _VALUE_ONLY[0] = False
         if feasible_only and any((t, not pol) in s.atoms for t, pol in s.atoms if not t.startswith("<iter>")):
             continue
         out.append(s)
     return out
+
+
+def canon_comprehension_vars(e):
+    """Copy of the expression with comprehension / generator variables renamed _c0, _c1, ... in order of appearance."""
+    e = _clone(e)
+    k = [0]
+
+    def walk(n):
+        if isinstance(n, (ast.ListComp, ast.SetComp, ast.GeneratorExp, ast.DictComp)):
+            ren = {}
+            for g in n.generators:
+                for t in ast.walk(g.target):
+                    if isinstance(t, ast.Name):
+                        ren[t.id] = "_c%d" % k[0]
+                        k[0] += 1
+            for x in ast.walk(n):
+                if isinstance(x, ast.Name) and x.id in ren:
+                    x.id = ren[x.id]
+        for c in ast.iter_child_nodes(n):
+            walk(c)
+
+    walk(e)
+    return e
